@@ -467,3 +467,14 @@ class StreamIterClose(_IterBase):
         rel = [e for e in st.events if e[0] == "released"]
         return self.common(st) + [("only the close request itself can fail", z3.BoolVal(len(inv) == 1 and inv[0][3] == "raise" and inv[0][4].ref == exc.ref)),
                                   ("a temporary proxy is released even then", z3.BoolVal(len(copies) == len(rel)))]
+
+
+@R.lemma("C10:stream-table-frame", props=("C10",))
+def stream_table_frame(E):
+    """the daemon's item-stream table is written only by the five functions under contract, by the constructor, and by close() / shutdown() (which empty it when the
+    daemon goes down: outside the claim)"""
+    from contracts.frames import frame_obligations
+    D = "Pyro5/server.py:Daemon."
+    frame_obligations(E, "item streams", {"streaming_responses": {
+        D + "__init__", D + "_streamResponse", D + "_clientDisconnect", D + "_housekeeping", D + "close", D + "shutdown",
+        "Pyro5/server.py:DaemonObject.get_next_stream_item", "Pyro5/server.py:DaemonObject.close_stream"}})
